@@ -44,7 +44,7 @@ theorem scan_bracketComment (lvl : Nat) (t rest : Str)
     rw [bracketText_eq]; exact opensBracket_open _ _
   have hde : docEnd.isPrefixOf ('#' :: (bracketOpen lvl ++ t ++ bracketClose lvl ++ rest)) = false := by
     rw [bracketText_eq]; simp [docEnd_eq, List.isPrefixOf]
-  simp only [List.cons_append]
+  simp only [List.cons_append, List.length_cons]
   generalize hL : (bracketOpen lvl ++ t ++ bracketClose lvl).length = L at *
   generalize bracketOpen lvl ++ t ++ bracketClose lvl ++ rest = x at *
   apply scan_of_unique (sc := 2 * (L + 1))
@@ -112,10 +112,11 @@ theorem scan_lineComment (t : Str) (crlf : Bool) (rest : Str) (ht : t.all notEol
     rw [List.append_assoc, List.drop_left]
   have hl : lineCommentLen ('#' :: (t ++ eolStr crlf ++ rest)) = some (t.length + (eolStr crlf).length + 1, false) := by
     simp only [lineCommentLen, hx, Bool.false_eq_true, if_false, hspan, hdrop]
-    rcases eolStr_cases crlf rest with ⟨h, h'⟩ | ⟨h, h'⟩ <;> rw [h, h']
-  simp only [List.cons_append]
-  apply scan_of_best (k := .lineComment) (sc := 2 * (t.length + (eolStr crlf).length + 1)) (by simp [ruleScore, hl])
-    (by simp)
+    rcases eolStr_cases crlf rest with ⟨h, h'⟩ | ⟨h, h'⟩ <;> rw [h, h'] <;> simp
+  have hel : 1 ≤ (eolStr crlf).length := by cases crlf <;> simp [eolStr]
+  simp only [List.cons_append, List.length_cons, List.length_append]
+  apply scan_of_best (k := .lineComment) (sc := 2 * (t.length + (eolStr crlf).length + 1))
+    (by rw [ruleScore, hl]; rfl) (by simp)
   · intro k' sc' n' hi hs
     obtain ⟨-, rfl, y, hy⟩ := lineComment_rules _ hx k' sc' n' (by intro e; subst e; simp at hi) hs
     have : 2 ≤ t.length := by
@@ -138,12 +139,124 @@ theorem scan_lineComment_eof (t : Str) (ht : t.all notEol = true) (hob : opensBr
     simpa [spanLen_nil] using this
   have hl : lineCommentLen ('#' :: t) = some (t.length + 1, true) := by
     simp [lineCommentLen, hob, hspan]
-  apply scan_of_best (k := .lineComment) (sc := 2 * (t.length + 1) + 1) (by simp [ruleScore, hl]) (by simp)
+  apply scan_of_best (k := .lineComment) (sc := 2 * (t.length + 1) + 1) (by rw [ruleScore, hl]; rfl) (by simp)
   · intro k' sc' n' hi hs
     obtain ⟨-, rfl, y, hy⟩ := lineComment_rules _ hob k' sc' n' (by intro e; subst e; simp at hi) hs
     subst hy; simp; omega
   · intro k' sc' n' hi hs
     obtain ⟨rfl, -, -⟩ := lineComment_rules _ hob k' sc' n' (by intro e; subst e; simp at hi) hs
     simp [TokKind.idx] at hi
+
+/-! ## doccomments -/
+
+theorem docStart_append (x : Str) : docStart ++ x = '#' :: '[' :: '[' :: '[' :: x := by rw [docStart_eq]; rfl
+
+theorem bracketCloseL_zero : bracketCloseL 0 = [']', ']'] := rfl
+
+/-- the rules at `#[[[x` when `#]]` first ends `m` characters into `x` -/
+theorem doc_rules (x : Str) (m : Nat) (hf : findAfter docEnd x = some m) :
+    ruleScore .docstring (docStart ++ x) = some (2 * (m + 4), m + 4) ∧
+    ∀ k' sc' n', k' ≠ .moduleDocstring → k' ≠ .docstring → ruleScore k' (docStart ++ x) = some (sc', n') →
+      3 < k'.idx ∧ sc' ≤ 2 * (m + 4) := by
+  have hp : docStart.isPrefixOf (docStart ++ x) = true := List.isPrefixOf_iff_prefix.mpr ⟨x, rfl⟩
+  have hd : (docStart ++ x).drop 4 = x := by rw [docStart_append]; rfl
+  refine ⟨by simp [ruleScore, plainScore, docstringLen, hp, hd, hf], ?_⟩
+  intro k' sc' n' h1 h2 hs
+  cases k'
+  case moduleDocstring => exact absurd rfl h1
+  case docstring => exact absurd rfl h2
+  case doccommentStart =>
+    simp only [ruleScore, plainScore, doccommentStartLen, hp, if_true, Option.map_some, Option.some.injEq,
+      Prod.mk.injEq] at hs
+    exact ⟨by decide, by omega⟩
+  case blockcommentEnd =>
+    rw [docStart_append] at hs
+    simp [ruleScore, plainScore, blockcommentEndLen, docEnd_eq, List.isPrefixOf] at hs
+  case bracketComment =>
+    refine ⟨by decide, ?_⟩
+    rw [docStart_append] at hs
+    have hbl : bracketLen ('[' :: '[' :: '[' :: x) = (findAfter (bracketCloseL 0) ('[' :: x)).map (· + 0 + 2) :=
+      bracketLen_open 0 ('[' :: x)
+    simp only [ruleScore, plainScore, bracketCommentLen, hbl, Option.map_map, Option.map_eq_some_iff] at hs
+    obtain ⟨q, hq, he⟩ := hs
+    rw [docEnd_eq] at hf
+    obtain ⟨m1, hm1, hle1⟩ := findAfter_tail_le hf
+    obtain ⟨m2, hm2, hle2⟩ := findAfter_cons_le '[' hm1
+    rw [bracketCloseL_zero, hm2] at hq
+    cases hq
+    simp only [Function.comp, Prod.mk.injEq] at he
+    omega
+  case lineComment =>
+    rw [docStart_append] at hs
+    simp [ruleScore, lineCommentLen, opensBracket, spanLen] at hs
+  all_goals (rw [docStart_append, hash_rules _ _ (by simp)] at hs; cases hs)
+
+/-- `#[[[ … #]]` that is not a module doccomment is one `Docstring` ending at the first `#]]` -/
+theorem scan_docstring (x : Str) (m : Nat) (hf : findAfter docEnd x = some m)
+    (hmod : moduleDocstringLen (docStart ++ x) = none) : scan (docStart ++ x) = some (.docstring, m + 4) := by
+  obtain ⟨h1, h2⟩ := doc_rules x m hf
+  apply scan_of_best h1 (by omega)
+  · intro k' sc' n' hi hs
+    by_cases hk : k' = .moduleDocstring
+    · subst hk; simp [ruleScore, plainScore, hmod] at hs
+    · have := (h2 k' sc' n' hk (by intro e; subst e; simp at hi) hs).1
+      have : TokKind.docstring.idx = 3 := rfl
+      omega
+  · intro k' sc' n' hi hs
+    exact (h2 k' sc' n' (by intro e; subst e; simp [TokKind.idx] at hi) (by intro e; subst e; simp at hi) hs).2
+
+/-- `#[[[`, blanks, `@module` … `#]]` at the head of the input is one `Module_docstring` -/
+theorem scan_moduleDocstring (x : Str) (m : Nat) (hf : findAfter docEnd x = some m)
+    (hmod : moduleDocstringLen (docStart ++ x) = some (m + 4)) :
+    scan (docStart ++ x) = some (.moduleDocstring, m + 4) := by
+  obtain ⟨h1, h2⟩ := doc_rules x m hf
+  apply scan_of_best (sc := 2 * (m + 4)) (by simp [ruleScore, plainScore, hmod]) (by omega)
+  · intro k' sc' n' hi hs
+    have := (h2 k' sc' n' (by intro e; subst e; simp at hi) (by intro e; subst e; simp [TokKind.idx] at hi) hs).1
+    have : TokKind.moduleDocstring.idx = 2 := rfl
+    omega
+  · intro k' sc' n' hi hs
+    by_cases hk : k' = .docstring
+    · subst hk; rw [h1] at hs; cases hs; exact Nat.le_refl _
+    · exact (h2 k' sc' n' (by intro e; subst e; simp at hi) hk hs).2
+
+/-- the text after `#[[[` does not start (after blanks) with `@module` when its first character is neither a blank
+    nor `@` -/
+theorem moduleDocstringLen_none (c : Char) (x : Str) (hb : isBlank c = false) (hc : c ≠ '@') :
+    moduleDocstringLen (docStart ++ c :: x) = none := by
+  have hp : docStart.isPrefixOf (docStart ++ c :: x) = true := List.isPrefixOf_iff_prefix.mpr ⟨_, rfl⟩
+  have hd : (docStart ++ c :: x).drop 4 = c :: x := by rw [docStart_append]; rfl
+  have hsp : spanLen (fun c => c == ' ' || c == '\t') (c :: x) = 0 := spanLen_cons_false (p := isBlank) x hb
+  simp [moduleDocstringLen, hp, hd, hsp, litModule_eq, List.isPrefixOf, Ne.symm hc]
+
+/-- `Module_docstring` on `#[[[`, blanks, `@module`, `y` -/
+theorem moduleDocstringLen_module (blanks y : Str) (m : Nat) (hb : blanks.all isBlank = true)
+    (hf : findAfter docEnd (blanks ++ lit "@module" ++ y) = some m) :
+    moduleDocstringLen (docStart ++ (blanks ++ lit "@module" ++ y)) = some (m + 4) := by
+  have hp : docStart.isPrefixOf (docStart ++ (blanks ++ lit "@module" ++ y)) = true :=
+    List.isPrefixOf_iff_prefix.mpr ⟨_, rfl⟩
+  have hd : (docStart ++ (blanks ++ lit "@module" ++ y)).drop 4 = blanks ++ lit "@module" ++ y := by
+    rw [docStart_append]; rfl
+  have hsp : spanLen (fun c => c == ' ' || c == '\t') (blanks ++ lit "@module" ++ y) = blanks.length := by
+    show spanLen isBlank _ = _
+    rw [List.append_assoc, spanLen_append_all isBlank _ _ hb, litModule_eq]
+    simp [spanLen_cons, isBlank]
+  have hdrop : (blanks ++ lit "@module" ++ y).drop blanks.length = lit "@module" ++ y := by
+    rw [List.append_assoc, List.drop_left]
+  have hpre : (lit "@module").isPrefixOf (lit "@module" ++ y) = true := List.isPrefixOf_iff_prefix.mpr ⟨_, rfl⟩
+  have hd7 : (lit "@module" ++ y).drop 7 = y := by rw [litModule_eq]; rfl
+  have hnot : '#' ∉ blanks ++ lit "@module" := by
+    intro hm
+    rcases List.mem_append.mp hm with h | h
+    · have := List.all_eq_true.mp hb _ h; revert this; decide
+    · rw [litModule_eq] at h; revert h; decide
+  rw [docEnd_eq, findAfter_skip '#' _ _ _ hnot] at hf
+  simp only [Option.map_eq_some_iff] at hf
+  obtain ⟨q, hq, rfl⟩ := hf
+  rw [← docEnd_eq] at hq
+  have hl7 : (lit "@module").length = 7 := by rw [litModule_eq]; rfl
+  simp only [moduleDocstringLen, hp, if_true, hd, hsp, hdrop, hpre, hd7, hq, Option.map_some,
+    List.length_append, hl7]
+  congr 1; omega
 
 end Cminx
